@@ -6,8 +6,9 @@ import json, os, re
 from collections import Counter
 
 HARNESSES = [("http/tokenV2", ["http/tokenV2/zz_verif_c17_test.go", "http/tokenV2/zz_verif_export.go"], "c17"),
-             ("auth/api/iam", ["auth/api/iam/zz_verif_c17_test.go", "http/tokenV2/zz_verif_export.go"], "c17jar")]
-TESTS = {"c17": "TestVerifC17", "c17jar": "TestVerifC17Jar"}
+             ("auth/api/iam", ["auth/api/iam/zz_verif_c17_test.go", "http/tokenV2/zz_verif_export.go"], "c17jar"),
+             ("vcr/verifier", ["vcr/verifier/zz_verif_c17_test.go", "http/tokenV2/zz_verif_export.go"], "c17vc")]
+TESTS = {"c17": "TestVerifC17", "c17jar": "TestVerifC17Jar", "c17vc": "TestVerifC17VcJwt"}
 PKG, HARNESS = HARNESSES[0][0], HARNESSES[0][1]
 
 # classes of the generator for which NOTHING made a valid signature over the exact bytes, whatever the consumer
@@ -69,7 +70,7 @@ def run(ctx):
         "over the canonical re-encoding — same decoded content, counted in the evidence, not treated as a violation",
         "model scope: crypto/jwx.go (JWTKidAlg, ParseJWT, ParseJWS), crypto/dpop/dpop.go (Parse up to the claim checks), network/dag/parser.go "
         "(ParseTransaction signature discipline; the other header steps are one verdict) + verifier.go (NewTransactionSignatureVerifier), "
-        "http/tokenV2/middleware.go (whole decision), auth/api/iam/jar.go (validate), and vcr/signature/proof/jsonld.go (LDProof.Verify) — the last one "
+        "http/tokenV2/middleware.go (whole decision), auth/api/iam/jar.go (validate), vcr/verifier/signature_verifier.go (jwtSignature), and vcr/signature/proof/jsonld.go (LDProof.Verify) — the last one "
         "is modelled and proved about but has NO correspondence harness (its error exits and calls are pinned as regenerated facts)",
     ]
     ctx.assumptions += [
@@ -79,7 +80,7 @@ def run(ctx):
     ]
 
     allowed = {"parsejwt": facts.get("supportedAlgs", []), "parsejws": facts.get("supportedAlgs", []), "dpop": facts.get("supportedAlgs", []),
-               "jar": facts.get("supportedAlgs", []),
+               "jar": facts.get("supportedAlgs", []), "vcjwt": facts.get("supportedAlgs", []),
                "dagtx": facts.get("dagAllowedAlgs", []), "apitoken": (facts.get("apiPolicy") or {}).get("acceptableAlgs", [])}
     table = {}
     distinct = set()
@@ -90,7 +91,8 @@ def run(ctx):
     samples = []
     replay_c = None
     if ctx.replay:
-        replay_c = "c17jar" if '"jar"' in open(ctx.replay).read() else "c17"
+        txt = open(ctx.replay).read()
+        replay_c = "c17jar" if '"jar"' in txt else "c17vc" if '"vcjwt"' in txt else "c17"
     for (pkg, files, name) in HARNESSES:
         if replay_c and replay_c != name:
             continue
@@ -150,7 +152,7 @@ def run(ctx):
         else:
             ctx.oblige(f"correspondence:{name}:model=impl", True, f"{len(impl)} lines equal")
     if not ctx.replay:
-        for c in ("parsejwt", "parsejws", "dpop", "dagtx", "apitoken", "jar"):
+        for c in ("parsejwt", "parsejws", "dpop", "dagtx", "apitoken", "jar", "vcjwt"):
             ctx.oblige(f"non-vacuous:{c}-accepts-its-valid-token(impl)", accepted_valid[c] > 0, str(dict(accepted_valid)))
 
     ctx.cov["evaluations"] = total
@@ -165,7 +167,8 @@ def run(ctx):
                        "segments (same-bytes flips classed as re-encodings); re-encodings (padding, std alphabet, 4th segment, trailing dot, white space, "
                        "truncations, re-serialised header). Consumers: crypto.ParseJWT, crypto.ParseJWS, dpop.Parse, dag.ParseTransaction+signature verifier "
                        "(kid form and jwk form), tokenV2 middleware, and iam jar.validate (in-package, DID resolver + client key set mocked, 5 client environments per "
-                       "variant: publishes the signer key / another key under the kid / not the kid / configuration unavailable / client_id mismatch). accept/reject vs model; direct oracle on the implementation's accepts. "
+                       "variant: publishes the signer key / another key under the kid / not the kid / configuration unavailable / client_id mismatch), and the VC/VP "
+                       "JWT consumer signatureVerifier.jwtSignature (in-package vcr/verifier, DID key resolver mocked). accept/reject vs model; direct oracle on the implementation's accepts. "
                        "distinct_nontrivial = distinct (consumer, variant name)")
     ctx.cov["input_distribution"] = {c: dict(t) for c, t in table.items()}
     ctx.cov["reencodings_accepted"] = dict(reenc)
